@@ -2,8 +2,13 @@ package main
 
 import (
 	"fmt"
+	"os"
+	"path/filepath"
 	"regexp"
 	"strings"
+
+	"verif/harness/cases"
+	"verif/harness/tool"
 
 	"verif/harness/cmpr"
 	"verif/harness/gen"
@@ -77,7 +82,55 @@ func c14Oracle(cr *caseRun) [][2]string {
 	return vs
 }
 
+// c14Configs: the tool must not crash on an accepted setup file whatever the output path is:
+// the setup file itself, a hard link to it, a directory, a path below a regular file.
+func c14Configs(r *report.Report) {
+	type cfg struct {
+		name string
+		args []string
+		prep func(dir string)
+	}
+	cfgs := []cfg{
+		{"out-is-setup", []string{"-out", "setup.go", "setup.go"}, nil},
+		{"out-is-setup-dry-print", []string{"-dry", "-print", "-out", "setup.go", "setup.go"}, nil},
+		{"out-is-hardlink", []string{"-out", "link.go", "setup.go"}, func(dir string) { os.Link(filepath.Join(dir, "pk/setup.go"), filepath.Join(dir, "pk/link.go")) }},
+		{"out-is-dir", []string{"-out", "sub", "setup.go"}, func(dir string) { os.MkdirAll(filepath.Join(dir, "pk/sub"), 0o755) }},
+		{"out-below-file", []string{"-out", "notes.txt/x.go", "setup.go"}, nil},
+		{"out-is-sibling-source", []string{"-dry", "-out", "other.go", "setup.go"}, nil},
+	}
+	for _, in := range []string{"simple", "twointf"} {
+		for _, c := range cfgs {
+			files := tool.Files{"pk/setup.go": cases.Fixed[in], "pk/other.go": "package pk\n\ntype Other struct{ Z int }\n", "pk/notes.txt": "keep\n"}
+			dir, err := cases.NewScratch("c14cfg", files)
+			if err != nil {
+				continue
+			}
+			if c.prep != nil {
+				c.prep(dir)
+			}
+			res := tool.Run(filepath.Join(dir, "pk"), c.args, nil, 0)
+			r.Eval("config/"+in+"/"+c.name, true)
+			r.Count("config=" + c.name)
+			var sig, what string
+			switch {
+			case res.Panicked:
+				sig, what = panicSignature(res.Stderr), "the tool panicked:\n"+trunc(res.Stderr, 600)
+			case res.TimedOut:
+				sig, what = "hang", "the tool did not terminate"
+			case res.Status != 0 && strings.TrimSpace(res.Stderr) == "":
+				sig, what = "failure-without-message", "non-zero exit with empty stderr"
+			}
+			if sig != "" {
+				rep := cases.SaveReplay("C14", "config-"+in+"-"+c.name, files, fmt.Sprintf("C14 replay: cd pk && convergen %s\n%s\n", strings.Join(c.args, " "), what))
+				r.Violation(report.Violation{Signature: sig, What: fmt.Sprintf("input=%s config=%s: %s", in, c.name, trunc(what, 300)), Replay: rep})
+			}
+			os.RemoveAll(dir)
+		}
+	}
+}
+
 func checkC14(r *report.Report, tier string, seed int64) error {
+	c14Configs(r)
 	n := 320
 	if tier == "thorough" {
 		n = 6000
@@ -88,7 +141,17 @@ func checkC14(r *report.Report, tier string, seed int64) error {
 	opt.Explicit = 0.8
 	opt.Embedding = 0.25
 	r.Rule = "generated setup packages biased to malformed input: byte strings in notation position (valid and invalid UTF-8, NBSP, missing arguments, unknown operations), :conv/:preprocess/:postprocess naming functions of every arity and result shape (missing, unexported, variables, non-functions), error-/interface-/func-typed fields, zero-parameter/zero-result/non-struct/pointer-to-pointer methods, files without converter interface; binary run under a time limit; non-trivial = the run ends in an error or panic, or has at least one explicit notation; distinct by file contents"
-	return pipelineCheck(r, "C14", seed, n, opt, func(i int) *gen.Case { return gen.GenerateMalformed(seed, i, opt) },
+	// every fourth package is well-formed and drawn from the classes whose handling reads the
+	// package of a named type (conversions, slices, interface- and error-typed members)
+	opt2 := opt
+	opt2.Malformed = 0
+	opt2.OnlyClasses = []string{"convertible", "slice", "assignable", "identical", "stringer"}
+	return pipelineCheck(r, "C14", seed, n, opt, func(i int) *gen.Case {
+		if i%4 == 3 {
+			return gen.Generate(seed, i, opt2)
+		}
+		return gen.GenerateMalformed(seed, i, opt)
+	},
 		func(cr *caseRun) bool { return cr.Impl.Status != 0 || len(cr.C.Features) > 3 }, c14Oracle)
 }
 
